@@ -3,7 +3,7 @@
 (* Batched trace validation for Text (code -> spec).  TRACE_FILE holds     *)
 (*   [ {fn, events: [ {ev:"in_*", ..}, {ev:"par_*", ..}, {ev:"out_*", ..} ]} .. ]                                   *)
 (* one trace per call of the REAL function:                                *)
-(*   wrap / rst : in_text {toks}            par_wrap {width, indent, offset} / par_rst {width, indent, nl}          *)
+(*   wrap / rst : in_text {toks}            par_wrap {width, indent, offset} / par_rst {width, indent, nl, fmt}          *)
 (*                out_text {atoms, raised}  (atoms lexed from the returned string, raised = exception class or "")  *)
 (*   fixws      : in_src {src}              par_fix {ending}                                                        *)
 (*                out_fix {lines, again, parses, ast_same}   (lines [i, t, r] projected from the real texts)        *)
@@ -42,7 +42,7 @@ TInSrc    == IsEvent("in_src") /\ Call("fixws", Ev[l].src)
 TParWrap  == IsEvent("par_wrap") /\ fn = "wrap"
              /\ SetParams([width |-> Ev[l].width, indent |-> Ev[l].indent, offset |-> Ev[l].offset])
 TParRst   == IsEvent("par_rst") /\ fn = "rst"
-             /\ SetParams([width |-> Ev[l].width, indent |-> Ev[l].indent, nl |-> Ev[l].nl])
+             /\ SetParams([width |-> Ev[l].width, indent |-> Ev[l].indent, nl |-> Ev[l].nl, fmt |-> Ev[l].fmt])
 TParFix   == IsEvent("par_fix") /\ fn = "fixws" /\ SetParams([ending |-> Ev[l].ending])
 TParEmbed == IsEvent("par_embed") /\ fn = "embed" /\ SetParams([origin |-> Ev[l].origin])
 TOutText  == IsEvent("out_text") /\ fn \in {"wrap", "rst"}
